@@ -441,12 +441,44 @@ def main(tier, replay=None):
     p = mk_parser(lib)
     for n, v in enumerate(pool):
         p.set_variable(PV[n], v)
+    CH = 40000
+    judged = [0, 0]
+
+    def settle(part):
+        """confirm timeouts deterministically, then have TLC judge this part (the thorough tier's millions of observations
+        are judged and dropped as they come: all at once they took over 16 GB)"""
+        for o in part:
+            if o['timed_out']:
+                if o['kind'] in ('fault', 'text', 'resubscribe', 'reenter', 'chain'):
+                    continue
+                def mk():
+                    q = mk_parser(lib)
+                    for n, v in enumerate(pool):
+                        q.set_variable(PV[n], v)
+                    return q
+                o['timed_out'] = confirm_timeout(mk, o['formula'])
+                if not o['timed_out']:
+                    rec, raised, timed = guarded_parse(mk(), o['formula'], 5.0)
+                    o.update(observation(o['kind'], o['formula'], rec, raised, timed))
+        for o in part:
+            judged[0] += 1
+            o['id'] = judged[0]
+        for k in range(0, len(part), CH):
+            chunk = part[k:k + CH]
+            v = core.validate_obs(run, 'Trace_C01', chunk, 'p%d' % judged[1], consts)
+            judged[1] += 1
+            core.tally(run, chunk, v, 'c01', key=lambda o: json.dumps(o['in'], sort_keys=True, default=str))
+
+    samples = [obs[3]['in'], obs[run.extra['fault_schedules'] + 500]['in']]
+    settle(obs)
+    obs = []
+    ncalls = 0
     for name in names:
         for ar in range(0, 5):
             if ar <= 2:
                 argsets = itertools.product(range(len(pool)), repeat=ar)
             else:
-                cnt = (40 if ar == 3 else 25) if quick else (len(pool) ** 3 if ar == 3 else 3000)
+                cnt = (40 if ar == 3 else 25) if quick else 3000
                 if not quick and ar == 3:
                     argsets = itertools.product(range(len(pool)), repeat=3)
                 else:
@@ -455,7 +487,13 @@ def main(tier, replay=None):
                 text = '%s(%s)' % (name, ','.join(PV[i] for i in a))
                 rec, raised, timed = guarded_parse(p, text)
                 obs.append(observation('call', text, rec, raised, timed))
-    run.extra['function_calls'] = len(obs) - n0
+                ncalls += 1
+            if len(obs) >= CH:
+                settle(obs)
+                obs = []
+    run.extra['function_calls'] = ncalls
+    settle(obs)
+    obs = []
     # --- random unicode, truncations and unbalanced brackets
     n0 = len(obs)
     seeds = ['SUM(1,2)*(3+A1)', 'IF(va>1,"yes","no")&"x"', '{1,2;3,4}', "'a'&\"b\"", 'IFERROR(1/0,#N/A)', '-(1+2)%']
@@ -504,27 +542,7 @@ def main(tier, replay=None):
             o['out'] = out
         obs.append(o)
     run.extra['texts'] = len(obs) - n0
-    # confirm timeouts deterministically
-    for o in obs:
-        if o['timed_out']:
-            if o['kind'] in ('fault', 'text', 'resubscribe', 'reenter', 'chain'):
-                continue
-            def mk():
-                q = mk_parser(lib)
-                for n, v in enumerate(pool):
-                    q.set_variable(PV[n], v)
-                return q
-            o['timed_out'] = confirm_timeout(mk, o['formula'])
-            if not o['timed_out']:
-                rec, raised, timed = guarded_parse(mk(), o['formula'], 5.0)
-                o.update(observation(o['kind'], o['formula'], rec, raised, timed))
-    for n, o in enumerate(obs, 1):
-        o['id'] = n
-    CH = 40000
-    for k in range(0, len(obs), CH):
-        part = obs[k:k + CH]
-        v = core.validate_obs(run, 'Trace_C01', part, 'p%d' % (k // CH), consts)
-        core.tally(run, part, v, 'c01', key=lambda o: json.dumps(o['in'], sort_keys=True, default=str))
+    settle(obs)
     run.exhaustive = not quick
-    run.samples = [obs[3]['in'], obs[run.extra['fault_schedules'] + 500]['in'], obs[-1]['in']]
+    run.samples = samples + [obs[-1]['in']]
     return run.finish()
